@@ -85,6 +85,7 @@ pub enum OwnerOp {
     SleepNs(u64),
     Yield,
     JoinWorkers,
+    Gate(u64),
 }
 
 #[derive(Clone, Debug, PartialEq)]
@@ -214,6 +215,7 @@ fn owner_main(plan: SessionPlan, stream: crate::stream::SimStream, hist: Hist) {
             }
             OwnerOp::SleepNs(ns) => simrt::sleep_ns(*ns),
             OwnerOp::Yield => simrt::yield_point("owner.yield"),
+            OwnerOp::Gate(id) => simrt::gate_wait(*id),
             OwnerOp::JoinWorkers => {
                 if !joined {
                     for w in workers.drain(..) {
